@@ -197,6 +197,20 @@ Constructors ==
 BuildT(c) == AskT
 Build(c) == BuildT(c) /\ Log("Build", c, g, 0)
 
+(* Aliasing with the caller.  The caller keeps what it handed to the constructor (the arrays,   *)
+(* list, dict ...) and may later write into it in place (a work buffer reused for the next      *)
+(* sequence); likewise it may write into anything a query handed back (gap_pos, the arrays of   *)
+(* get_gap_lengths / get_gap_align_coordinates, the lists of get_gap_coordinates /              *)
+(* get_coordinates).  The write may be refused (frozen array) or go through; either way it is a *)
+(* stuttering step for the map: it still describes g.                                           *)
+Returned == {"gap_pos", "cum_gap_lengths", "get_gap_lengths", "get_gap_align_coordinates",
+             "get_gap_coordinates", "get_coordinates"}
+ReturnCtors == {<<"arrays", "int64">>, <<"arrays", "gap_lengths">>, <<"parse", "text">>, <<"segments", "list">>}
+CallerWritesArgumentT(c) == AskT
+CallerWritesArgument(c) == CallerWritesArgumentT(c) /\ Log("CallerWritesArgument", c, g, 0)
+CallerWritesReturnedT(w, c) == AskT
+CallerWritesReturned(w, c) == CallerWritesReturnedT(w, c) /\ Log("CallerWritesReturned", <<w, c[1], c[2]>>, g, 0)
+
 SliceT(a, b) == CallT(SliceS(g, a, b))
 Slice(a, b) == SliceT(a, b) /\ Log("Slice", <<a, b>>, SliceS(g, a, b), 0)
 
@@ -238,7 +252,8 @@ Drop  == out.has /\ g' = g /\ out' = NoOut
 Init == g \in Str(MaxLen) /\ out = NoOut
 
 Call == \/ DescribeA
-        \/ \E c \in Constructors : Build(c)
+        \/ \E c \in Constructors : Build(c) \/ CallerWritesArgument(c)
+        \/ \E w \in Returned, c \in ReturnCtors : CallerWritesReturned(w, c)
         \/ \E a, b \in (0 - Len(g))..Len(g) : Slice(a, b)
         \/ \E i \in (0 - Len(g))..(Len(g) - 1) : Index(i)
         \/ \E h \in Str(MaxLen) : Concat(h)
